@@ -519,6 +519,11 @@ class _PhaseToken:
         self.pows.append(n)
         return ("phase ** n", self, n)
 
+    def __mul__(self, n):
+        return ("phase * n", self, n)
+
+    __rmul__ = __mul__
+
 
 @contract("C06", "P2.trotterize.any_number_of_steps", targets=[(AU, "trotterize")], level="P",
           structures=lambda tier: [{"time": t, "return_phase": rp, "op": o} for t in ("scalar", "dict") for rp in (False, True) for o in ("qubit", "fermion")])
@@ -602,7 +607,7 @@ def p2(h, st):
     h.check_close("... N times", muls[0][0][1], N)
     if st["return_phase"]:
         h.check("(circuit * N, phase ** N) returned", isinstance(out, tuple) and len(out) == 2 and isinstance(out[0], Opaque) and out[0]._info.get("of") is step_circuit
-                and isinstance(out[1], tuple) and out[1][1] is phase)
+                and isinstance(out[1], tuple) and out[1][0] == "phase ** n" and out[1][1] is phase)
         if isinstance(out, tuple) and isinstance(out[1], tuple):
             h.check_close("phase raised to the power N", out[1][2], N)
     else:
